@@ -141,17 +141,28 @@ static bool handle_ffi_req(int in_fd, uint32_t payload_len) {
         if (result_len > 0) {
             cop_send(STDOUT_FILENO, COP_MSG_FFI_RESULT, stack_buf, result_len);
         } else {
-            /* Stack buffer too small — retry with a larger heap buffer */
+            /* Stack buffer too small — retry with heap buffers of growing size,
+             * up to the largest payload the protocol allows */
             uint32_t big_size = 1024 * 1024;  /* 1 MB */
-            uint8_t *big_buf = malloc(big_size);
-            if (big_buf) {
+            uint8_t *big_buf = NULL;
+            for (;;) {
+                big_buf = malloc(big_size);
+                if (!big_buf) break;
                 result_len = cop_serialize_value(&result, big_buf, big_size);
-                cop_send(STDOUT_FILENO, COP_MSG_FFI_RESULT, big_buf, result_len);
+                if (result_len > 0 || big_size >= COP_MAX_PAYLOAD) break;
                 free(big_buf);
+                big_size *= 2;
+            }
+            if (big_buf && result_len > 0) {
+                cop_send(STDOUT_FILENO, COP_MSG_FFI_RESULT, big_buf, result_len);
+            } else if (big_buf) {
+                cop_send(STDOUT_FILENO, COP_MSG_FFI_ERROR,
+                         "result too large to serialize", 29);
             } else {
                 cop_send(STDOUT_FILENO, COP_MSG_FFI_ERROR,
                          "OOM serializing result", 22);
             }
+            free(big_buf);
         }
         vm_release(&g_heap, result);
     }
